@@ -25,13 +25,14 @@ def scenarios(rng, tier):
         for j, junk in enumerate(('a5', '00', '3c') if k % 2 == 0 else ('a5', 'ff')):
             s.start('wf_%d~%d' % (k, j)); s.op('junk', junk); s.lines += body.lines
     # full QueryResp / large-TLV responses at every residue of the MTU (count and length words against the real frame length)
-    for k in range(10 if tier == 'quick' else 80):
-        mtu = rng.choice([1492, 1493, 592, 593]) if k % 2 else 576 + rng.randrange(40)
-        cap = (mtu - 34) // 20
-        s.start('full_%d~0' % k); s.lines.append('cfg 0 mtu=%d' % mtu); s.lines.append(gline(icon=bytes(range(256)) * 8))
-        M = mac(1); s.frame(0, discover(M, gen=1))
-        for i in range(cap + rng.choice([0, 1, 2])): s.frame(0, probe(mac(100 + i), OWN0, mac(100 + i), OWN0))
-        s.frame(0, query(M, OWN0, seq=7)); s.frame(0, query(M, OWN0, seq=8)); s.frame(0, qlt(M, OWN0, 14, 0, seq=9)); s.frame(0, qlt(M, OWN0, 14, mtu - 34, seq=10))
+    fam_full_lists(s, 'full', RESIDUE_MTUS if tier == 'thorough' else RESIDUE_MTUS[::1], extra=(0, 2) if tier == 'quick' else (0, 1, 2), twin=True)
+    fam_mtu_change(s, 'mtuchg', rng, 12 if tier == 'quick' else 200)
+    # a hardware id that fills its 64-byte buffer exactly (no terminator), around it, and requests at the edges
+    for k, hl in enumerate((62, 63, 64, 65, 66, 80)):
+        for j, junk in enumerate(('a5', '5a')):
+            s.start('hwid_%d~%d' % (hl, j)); s.op('junk', junk); s.lines.append(gline(hwid=bytes(1 + (7 * i) % 250 for i in range(hl))))
+            M = mac(1); s.frame(0, discover(M, gen=1))
+            for off in (0, 1, 60, 62, 63, 64, 65, 66): s.frame(0, qlt(M, OWN0, 19, off, seq=3 + off))
     return [(s.text(), {})]
 def project(blk, name, meta):
     # the property observes WHICH frames leave in reaction to what (their well-formedness is judged on the implementation's
